@@ -21,6 +21,10 @@ add("C34", "corepbt", "proptest over generated files with oracle by construction
     "Random files mixing marker lines, blank lines, code and later marker lines for four comment markers; expected table known by construction. StringList string form vs list form compared directly and through TOML.",
     "config.rs is compiled from /repo's working tree via #[path] (the module is private); TOML values limited to ints, bools, literal strings and string arrays.")
 
+add("C24", "rtpbt", "proptest stateful histories vs allocation model + tracking global allocator",
+    "Random alloc/realloc/free/Cleanup histories against the real rt::cabi_realloc and rt::Cleanup; model of (ptr,size,align,contents); a tracking #[global_allocator] validates the layout of every realloc/dealloc and leak-freedom at the end of each history.",
+    "cabi_realloc is reached natively through the verif cfg (hook 2); pointer width 8; System allocator instead of the wasm one; allocation failure is not explored.")
+
 PENDING_REASON = "check not built yet in this session (planned in DESIGN.md §4); not claimed until it exists and passes its sensitivity runs"
 
 def main():
@@ -52,7 +56,7 @@ def main():
             "enable": "harness/.cargo/config.toml sets rustflags = [\"--cfg\", \"bytecodealliance_wit_bindgen_verif\"] for every harness build",
             "baseline_off_cmd": "cd /repo && cargo test --workspace --no-fail-fast --offline",
             "source_commits": HOOK_COMMITS,
-            "add_only": True,
+            "add_only": False,
         },
         "engines": ENGINES,
         "checks": checks,
@@ -70,9 +74,10 @@ def main():
         print("jsonschema not importable here; wrote MANIFEST.json without validation")
 
 NA = {}
-HOOK_COMMITS = []
+HOOK_COMMITS = ["b827c12", "a6f2383"]
 ENGINES = [
-    {"name": "corepbt", "path": "harness/corepbt", "serves_properties": ["C17", "C24", "C25", "C26", "C27", "C28", "C34"], "kind_free_text": "proptest harnesses over public items of wit-bindgen-core / wit-bindgen rt / wit-bindgen-test"},
+    {"name": "rtpbt", "path": "harness/rtpbt", "serves_properties": ["C24"], "kind_free_text": "proptest histories against wit_bindgen::rt allocation entry points with a tracking global allocator"},
+    {"name": "corepbt", "path": "harness/corepbt", "serves_properties": ["C17", "C25", "C26", "C27", "C28", "C34"], "kind_free_text": "proptest harnesses over public items of wit-bindgen-core / wit-bindgen rt / wit-bindgen-test"},
 ]
 if __name__ == "__main__":
     main()
